@@ -123,6 +123,9 @@ func writeSSHKeyPairToFile(privateKeyPath string, identity string,
 			return "", err
 		}
 	}
+	// A file that is already there keeps its mode when it is rewritten: make
+	// sure the private key never lands in a file others can read.
+	os.Chmod(privateKeyPath, 0600)
 	err = ioutil.WriteFile(
 		privateKeyPath,
 		pem.EncodeToMemory(&pem.Block{Type: pemBlockType, Bytes: encodedSigner}),
